@@ -309,7 +309,86 @@ def mentions_levels(spec):
     return False
 
 
+def run_borrowed(case):
+    """conditions on the levels of a *borrowed block* (the share handed out by borrow()): a
+    waiter for 'the block is drained' is woken in the time step in which its holder gives the
+    amount back - by leaving normally, by an exception, cancelled, or forcefully closed"""
+    import usim
+    from usim import Scope, Resources, Capacities, time, eternity
+    rng = random.Random('%s/%s/c08-borrowed' % (case['seed'], case['index']))
+    how = rng.choice(['normal', 'error', 'cancel', 'close', 'close'])
+    hold = rng.choice([1, 2, 5])
+    amount = rng.choice([1, 2, 3])
+    arrive = rng.choice([0.5, 0.5, hold, hold + 1])
+    kind = rng.choice([Resources, Capacities])
+    compare = rng.choice(['eq', 'le', 'lt'])
+    woken = []
+    seen = []
+    sess = Session()
+
+    async def holder(resources, handout):
+        try:
+            async with resources.borrow(a=amount) as block:
+                handout.append(block)
+                if how in ('normal', 'error'):
+                    await (time + hold)
+                    if how == 'error':
+                        raise KeyError('leave by exception')
+                else:
+                    await eternity
+        except KeyError:
+            pass
+
+    async def watcher(handout):
+        await (time + arrive)
+        block = handout[0]
+        drained = {'eq': lambda: block == {'a': 0}, 'le': lambda: block <= {'a': 0},
+                   'lt': lambda: block < {'a': 1}}[compare]()
+        handout.append(drained)
+        await drained
+        woken.append(time.now)
+
+    async def main():
+        resources = kind(a=3)
+        handout = []
+        async with Scope() as outer:
+            outer.do(watcher(handout), volatile=True)
+            async with Scope() as inner:
+                task = inner.do(holder(resources, handout), volatile=(how == 'close'))
+                await (time + hold)
+                if how == 'cancel':
+                    task.cancel()
+            # the holder is gone: its block was drained during time step `hold`
+            await (time + 3)
+            seen.append((bool(handout[1]) if len(handout) > 1 else None,
+                         dict(handout[0].levels), dict(resources.levels)))
+            await (time + 3)
+
+    root = main()
+    outcome = sess.run(root)
+    root.close()
+    violations = [dict(v) for v in sess.violations if v['mechanism'].startswith('kernel-')]
+    expected = max(hold, arrive)
+    scenario = '%s(a=3).borrow(a=%d) left by %s at %r, waiter for `block %s` arriving at %r' % (
+        kind.__name__, amount, how, hold, compare, arrive)
+    if outcome[0] != 'ok':
+        violations.append({'mechanism': 'c08:run-failed',
+                           'msg': '%s: run ended with %r' % (scenario, outcome[1])})
+    elif woken != [expected]:
+        violations.append({'mechanism': 'c08:missed-wakeup',
+                           'msg': '%s: the waiter was woken at %s, expected at %r; afterwards the '
+                                  'condition, the block and the supply read %s' % (
+                                      scenario, woken, expected, seen)})
+    for vio in violations:
+        vio['case'] = dict(case)
+    return {'evals': 1, 'sigs': [scenario], 'violations': violations, 'sample': None,
+            'stats': {'resumes_checked': 1, 'borrowed_block_waiters': 1, 'real_waits': 1,
+                      'activations': sess.n}}
+
+
 def run_case(case):
+    if case['index'] % 25 == 24:
+        return run_borrowed(case)
     program, exprs = build(case)
     sess = Session()
     holder = {}
